@@ -552,11 +552,14 @@ template <class D> struct ObjHarness : Harness {
     if constexpr (Dom<D>::kind == GRID) {
       if (mode == 2 || mode == 3) {
         Grid_Generator_System gs;
-        for (long k = 0; k < std::max(1L, rows); ++k) {
+        // one generator is forced to be a point; it is NOT always the first one (a system whose first row is a
+        // line or a parameter is legal and reaches code that assumes row 0 is the point)
+        long nrows = std::max(1L, rows), forced = c.mod(2) ? 0 : c.mod(nrows);
+        for (long k = 0; k < nrows; ++k) {
           long t = c.mod(6);
           Linear_Expression e = c.expr((dimension_type) dim, false);
           long den = 1 + c.mod(4);
-          if (k == 0 || t <= 1) gs.insert(PPL::grid_point(e, den));
+          if (k == forced || t <= 1) gs.insert(PPL::grid_point(e, den));
           else if (e.all_homogeneous_terms_are_zero()) gs.insert(PPL::grid_point(e, den));
           else if (t <= 3) gs.insert(PPL::parameter(e, den));
           else gs.insert(PPL::grid_line(e));
@@ -753,6 +756,25 @@ template <class D> struct ObjHarness : Harness {
         ctx.violation("C14", "copy-damaged", klass(op, "shares-representation"), "a copy taken before the failed call was damaged by it (copy-on-write disjunct shared with the object that was hit); OK()=" + std::to_string((int) ok));
     }
     cow.clear();
+    // 4c. "can still be ... used": the objects that were hit are valid objects as they stand (their VALUE is
+    //     unspecified after a resource fault, their invariant is not): OK(), a copy, and a few queries on them
+    if (outcome == "bad_alloc" || outcome == "abandoned") {
+      ctx.note("branch: direct use of the objects that were hit");
+      for (int s : uniq) {
+        D& x = *R.pool[(size_t) s];
+        bool ok = false;
+        try { ok = x.OK(); } catch (const std::exception&) { ok = false; }
+        ctx.stat("c14.direct_use_checks");
+        if (!ok) { ctx.violation("C14", "damaged-not-ok", klass(op, outcome), "OK() is false for an object involved in a call cut short by " + outcome + " (before any recovery)"); break; }
+        try {
+          D copy(x);
+          (void) copy.is_empty();
+          if (!copy.OK()) ctx.violation("C14", "damaged-not-ok", klass(op, outcome + "|copy"), "a copy of an object involved in a call cut short by " + outcome + " fails OK() after is_empty()");
+        }
+        catch (const std::exception& e) { ctx.violation("C14", "damaged-unusable", klass(op, outcome), std::string("copying / querying an object involved in a call cut short throws: ") + e.what()); }
+      }
+      if (!ctx.viols.empty()) return;
+    }
     // 5./6. recovery of every involved object
     for (size_t i = 0; i < uniq.size(); ++i) {
       int s = uniq[i];
@@ -797,44 +819,9 @@ template <class D> struct ObjHarness : Harness {
       ctx.note("branch: leak check");
       ctx.stat("c14.leak_checks");
       // the report goes to a scratch file so that the allocation site can be named
-      char path[128]; snprintf(path, sizeof path, "/tmp/verif-lsan-%d.txt", (int) getpid());
-      int fd = open(path, O_WRONLY | O_CREAT | O_TRUNC, 0600);
-      int saved = dup(2);
-      if (fd >= 0) { dup2(fd, 2); close(fd); }
-      int leaks = lsan_leaks();
-      if (saved >= 0) { dup2(saved, 2); close(saved); }
-      if (leaks) {
-        std::string site = "unknown";
-        FILE* f = fopen(path, "r");
-        if (f) {
-          char line[1024]; bool in_block = false;
-          while (fgets(line, sizeof line, f)) {
-            if (strstr(line, "leak of")) { in_block = true; continue; }
-            if (!in_block) continue;
-            const char* hash = strchr(line, '#');
-            if (!hash || hash - line > 8) continue;       // only stack-frame lines
-            const char* in = strstr(line, " in ");
-            if (!in) continue;
-            std::string fn(in + 4);
-            while (!fn.empty() && (fn.back() == '\n' || fn.back() == ' ')) fn.pop_back();
-            // drop the trailing " file:line" or " (module+0x..)"
-            size_t sp = fn.rfind(' ');
-            if (sp != std::string::npos && (fn.find('/', sp) != std::string::npos || fn.find(':', sp) != std::string::npos || fn[sp + 1] == '(')) fn.resize(sp);
-            // drop the argument list, keep the qualified name
-            size_t par = fn.find('(');
-            if (par != std::string::npos && par > 0) fn.resize(par);
-            if (fn.find("operator new") != std::string::npos || fn.find("malloc") != std::string::npos || fn.find("sim_gmp") != std::string::npos
-                || fn.find("interceptor") != std::string::npos || fn.find("realloc") != std::string::npos || fn.find("allocator") != std::string::npos
-                || fn.find("__gnu_cxx") != std::string::npos || fn.find("std::") == 0) continue;
-            for (char& ch : fn) if (ch == ' ' || ch == '|') ch = '_';
-            if (fn.size() > 80) fn.resize(80);
-            site = fn; break;
-          }
-          fclose(f);
-        }
+      std::string site;
+      if (lsan_leaks_site(site))
         ctx.violation("C14", "leak", klass(op, "site=" + site), "memory allocated during a call cut short by " + outcome + " is unreachable after every object was destroyed (first non-allocator frame: " + site + ")");
-      }
-      if (!getenv("VERIF_KEEP_LSAN")) unlink(path);
     }
   }
 
@@ -905,6 +892,11 @@ template <class D> struct ObjHarness : Harness {
           else ctx.stat("skipped_dim_mismatch");
           continue;
         }
+      }
+      if (prop == "C14" && op.mod(9, 3) == 0) {
+        std::string dn = d.name;
+        if (dn == "add_space_dimensions_and_embed" || dn == "add_space_dimensions_and_project" || dn == "expand_space_dimension") illformed_dim_overflow(R, op, dn, slots[0]);
+        if (!ctx.viols.empty()) break;
       }
       std::vector<int> uniq;
       for (int s : slots) if (std::find(uniq.begin(), uniq.end(), s) == uniq.end()) uniq.push_back(s);
@@ -1060,6 +1052,31 @@ template <class D> struct ObjHarness : Harness {
       for (Grid_Generator_System::const_iterator i = gs.begin(); i != gs.end() && n < 3; ++i, ++n)
         if (i->is_point()) R.probes.add(dim, oracle::vec_of(*i, dim, true));
     }
+  }
+
+  // space-dimension overflow: std::length_error, receiver unchanged (never a wrapped-around dimension, never a crash)
+  void illformed_dim_overflow(Run& R, const Op& op, const std::string& dn, int slot) {
+    Ctx& ctx = R.ctx;
+    D& x = *R.pool[(size_t) slot];
+    dimension_type dim = x.space_dimension();
+    if (dn == "expand_space_dimension" && dim == 0) return;
+    Fp pre = fingerprint(x, R.probes);
+    dimension_type m = op.mod(10, 2) ? ~(dimension_type) 0 - (dimension_type) op.mod(11, 3) : D::max_space_dimension() - dim + 1 + (dimension_type) op.mod(11, 3);
+    ctx.note("illformed: space dimension overflow");
+    ctx.stat("c14.illformed.dim_overflow");
+    ++ctx.faults_fired;
+    try {
+      if (dn == "add_space_dimensions_and_embed") x.add_space_dimensions_and_embed(m);
+      else if (dn == "add_space_dimensions_and_project") x.add_space_dimensions_and_project(m);
+      else x.expand_space_dimension(Variable(0), m);
+      ctx.violation("C14", "illformed-accepted", klass(op, "dim-overflow"), "a number of new dimensions beyond max_space_dimension() was accepted (space dimension now " + std::to_string(x.space_dimension()) + ")");
+      return;
+    }
+    catch (const std::length_error&) {}
+    catch (const std::exception& e) { ctx.violation("C14", "illformed-wrong-exception", klass(op, "dim-overflow"), e.what()); return; }
+    ctx.note("");
+    if (!x.OK()) ctx.violation("C14", "rejected-not-ok", klass(op, "dim-overflow"), "OK() false after a rejected call");
+    else if (fingerprint(x, R.probes) != pre) ctx.violation("C14", "rejected-changed", klass(op, "dim-overflow"), "value changed by a rejected call");
   }
 
   void illformed_dim_mismatch(Run& R, const Op& op, const DescT& d, const std::vector<int>& slots) {
